@@ -217,8 +217,17 @@ fn eval_history(seq: &[Ep], full_positions: bool, acc: &mut Acc) {
                     TAU,
                 );
                 if let Err(msg) = res {
+                    // the message names the (n, k) the client derived: part of the signature, so
+                    // that a rejection for another shape is a different finding
+                    let nk = msg
+                        .rsplit("n: ")
+                        .next()
+                        .map(|t| t.replace(", k: ", ",k="))
+                        .map(|t| t.trim().to_owned())
+                        .filter(|t| t.len() <= 12 && msg.contains("n: "))
+                        .unwrap_or_else(|| format!("{}", n));
                     acc.push(
-                        format!("reject-legal/total-difficulty/{}", classify_err(&msg)),
+                        format!("reject-legal/total-difficulty/{}/n={}", classify_err(&msg), nk),
                         format!(
                             "verify_total_difficulty rejects a legal history: {}",
                             msg.split_whitespace().collect::<Vec<_>>().join(" ")
@@ -250,7 +259,7 @@ fn eval_history(seq: &[Ep], full_positions: bool, acc: &mut Acc) {
                     );
                     if res.is_ok() {
                         acc.push(
-                            format!("accept-illegal/{}", class),
+                            format!("accept-illegal/{}/n={}", class, n),
                             format!("verify_total_difficulty accepts an impossible total ({})", class),
                             describe(t),
                         );
